@@ -300,14 +300,17 @@ theorem save_cols_pure (lo : Nat) (l : List SaveCols.Col) (h : SaveCols.FlatFrom
   exact SaveCols.look_mergeSorted lo l h c
 
 /-- (save is pure on merged ranges that do not overlap) `workSheetWriter` → `mergeOverlapCells`
-(flatMergedCells with its pointer matrix and in-place rect mutation, then the selection pass) is the
+(since C03's repair 06830cb: each range is merged with the ranges it overlaps into the bounding range,
+repeated to a fixpoint, comparing rectangles) is the
 identity on every list of valid, pairwise disjoint merged ranges: same entries, same order, same `Ref`. -/
 theorem save_merges_pure_on_disjoint (ms : List Grid.MObj) (h : Grid.PairwiseDisjoint ms) :
     Grid.mergeOverlapCells ms = ms := Grid.mergeOverlap_id ms h
 
 /-- (finding, open: `twin:overlapping-merges-normalised-at-save`) on two intersecting ranges
 (`D3:D4` then `C2:D3`, the witness of the oracle) the save is *not* the identity: it replaces them by
-the one range `C2:D4`, so `mergeCellsParser` redirects a later write into the overlap to another cell. -/
+the one range `C2:D4`, so `mergeCellsParser` redirects a later write into the overlap to another cell.
+(C03's rewrite of the normalisation changed *how* overlapping ranges are combined, not *when*:
+`MergeCell` still only appends, the list is still normalised in place by the save.) -/
 theorem finding_overlapping_merges_normalised :
     let ms : List Grid.MObj := [⟨⟨4, 3, 4, 4⟩, ⟨4, 3, 4, 4⟩⟩, ⟨⟨3, 2, 4, 3⟩, ⟨3, 2, 4, 3⟩⟩]
     Grid.mergeOverlapCells ms ≠ ms ∧ (Grid.mergeOverlapCells ms).map (·.ref) = [⟨3, 2, 4, 4⟩] := by
